@@ -1,17 +1,20 @@
 #!/bin/bash
-# Applies each seeded change to /repo, runs the checks named for it, restores /repo. Usage: eval_seeded.sh [ids...]
-# Output: one line per (mutant, property check): exit code and the VIOLATION lines.
+# Applies each seeded change to a scratch copy of /repo's working tree (outside /repo and /verif), runs the property's quick check on
+# that copy (VERIF_REPO), removes the copy. Usage: eval_seeded.sh [ids...]   Output: one line per (change, check).
 cd /verif
+S=${EVAL_SCRATCH:-/tmp/cdns_eval}
+mkdir -p $S/logs
 ids="$@"; [ -z "$ids" ] && ids=$(ls seeded)
 for id in $ids; do
-  d=seeded/$id
+  d=$PWD/seeded/$id
   props=$(python3 -c "import json;m=json.load(open('$d/meta.json'));print(' '.join(m.get('run_checks',[m['property']])))")
-  git -C /repo checkout -q -- . ; git -C /repo apply $PWD/$d/patch.diff || { echo "$id APPLY-FAILED"; continue; }
+  W=$S/$id; rm -rf $W; mkdir -p $W; cp -r /repo/src $W/src
+  ( cd $W && git init -q . && git apply $d/patch.diff ) || { echo "$id APPLY-FAILED"; rm -rf $W; continue; }
   for p in $props; do
     s=$(date +%s)
-    ./check $p --tier quick > /tmp/w/seed_${id}_$p.log 2>&1; rc=$?
+    VERIF_REPO=$W VERIF_CACHE=$W/cache VERIF_EVIDENCE=$S/evidence ./check $p --tier ${TIER:-quick} > $S/logs/seed_${id}_$p.log 2>&1; rc=$?
     e=$(date +%s)
-    echo "$id check=$p rc=$rc $((e-s))s :: $(grep -c '^VIOLATION' /tmp/w/seed_${id}_$p.log) violation lines :: $(grep '^  failed obligation' /tmp/w/seed_${id}_$p.log | head -3 | cut -c22-110 | tr '\n' ';')"
+    echo "$id check=$p rc=$rc $((e-s))s :: $(grep -c '^VIOLATION' $S/logs/seed_${id}_$p.log) violation lines :: $(grep '^  failed obligation' $S/logs/seed_${id}_$p.log | head -3 | cut -c22-110 | tr '\n' ';') $(grep '^UNDECIDED' $S/logs/seed_${id}_$p.log | head -2 | cut -c1-160 | tr '\n' ';')"
   done
-  git -C /repo checkout -q -- .
+  rm -rf $W
 done
